@@ -535,9 +535,31 @@ def check(prog, rep):
         ok = any(isinstance(r, ast.BoolOp) and isinstance(r.op, ast.And) and "is not None" in src(r.values[0]) and re.fullmatch(rf"\w+ <= {bound}", src(r.values[1])) for r in rets)
         rep.pin("degree consumers", "R04.4", owner, ok, f"<=> degree is not None and degree <= {bound}" if ok else f"{owner} is not `deg is not None and deg <= {bound}`", loc=fn.loc, detail="threshold")
     deg = E.methods.get("degree")
-    s = src(deg.node)
-    ok = Frag(s, "self._degree = result if result is not None else -1", "return None if self._degree == -1 else self._degree")
-    rep.pin("degree consumers", "R04.4", "Expression.degree", ok, "per-node cache: -1 is written only for None and read back as None" if ok else "the per-node degree cache does not map None <-> -1 consistently", loc=deg.loc, detail="sentinel")
+    # sentinel: the cache holds -1 for "None"; written as `X if X is not None else -1`, read back as
+    # `None if C == -1 else C` where C is the cached value (self._degree, or a local holding it)
+    dass = local_assignments(deg.node)
+
+    def is_cache_read(e):
+        e2 = e
+        if isinstance(e2, ast.Name):
+            vals = [v for v in dass.get(e2.id, []) if isinstance(v, ast.AST)]
+            return len(vals) == 1 and is_cache_read(vals[0])
+        if isinstance(e2, ast.Attribute):
+            return src(e2) == "self._degree"
+        if isinstance(e2, ast.Call) and dotted(e2.func) == "getattr" and len(e2.args) >= 2:
+            return src(e2.args[0]) == "self" and isinstance(e2.args[1], ast.Constant) and e2.args[1].value == "_degree"
+        return False
+
+    writes = [n for n in walk_local(deg.node) if isinstance(n, ast.Assign) and src(n.targets[0]) == "self._degree"]
+    w_ok = bool(writes) and all(isinstance(w.value, ast.IfExp) and isinstance(w.value.test, ast.Compare) and isinstance(w.value.test.ops[0], ast.IsNot) and src(w.value.test.comparators[0]) == "None"
+                                and src(w.value.test.left) == src(w.value.body) and src(w.value.orelse) == "-1" for w in writes)
+    reads = [n.value for n in walk_local(deg.node) if isinstance(n, ast.Return) and n.value is not None and any(is_cache_read(x) for x in ast.walk(n.value) if isinstance(x, (ast.Name, ast.Attribute, ast.Call)))]
+    r_ok = bool(reads) and all(isinstance(r, ast.IfExp) and src(r.body) == "None" and isinstance(r.test, ast.Compare) and isinstance(r.test.ops[0], ast.Eq) and src(r.test.comparators[0]) == "-1"
+                               and is_cache_read(r.test.left) and is_cache_read(r.orelse) for r in reads)
+    if not writes or not reads:
+        rep.undecided("Expression.degree: write / read-back of the per-node degree cache not found")
+    else:
+        rep.ob("R04.4", "Expression.degree", w_ok and r_ok, "per-node cache: -1 is written only for None and read back as None" if w_ok and r_ok else "the per-node degree cache does not map None <-> -1 consistently", loc=deg.loc, detail="sentinel")
     uses_switch = any(dotted(c.func) == "compute_degree" for c in calls(deg.node))
     rep.pin("degree consumers", "R04.4", "Expression.degree", uses_switch, "the cached value comes from compute_degree (depth switch)" if uses_switch else "the cached degree is not computed by compute_degree", loc=deg.loc, detail="source")
     # every writer of the per-node cache: None (uninitialised), the leaf degree of the class itself, or the sentinel
